@@ -120,6 +120,15 @@ PROPS = {
         "partial": ["termination of generation is probabilistic (safe primes with the wanted residues keep arriving); proved: once stop is closed every worker finishes (progress measure), checked: goroutine count returns to the baseline",
                     "that S with Euler symbol 1 mod p and q is a square mod n = pq needs the CRT recombination of the two roots (crt_spec in C19); stated per prime factor here"],
     },
+    "C17": {
+        "suite": "C17", "ref_sample": 6, "timeout": 3000,
+        "trusted": ["big.Int.ProbablyPrime (group prime, its half, N) enters the model as observed oracle values",
+                    "common.ModSqrt / safeprime generation are prover-side helpers used as given (C19)",
+                    "FastMod is modelled as Euclidean mod (C19 fastmod_spec); exptable exponentiation of g and h as modular exponentiation",
+                    "encoding/json of the proof types (round trip exercised, not modelled)"],
+        "assumptions": ["soundness of the Camenisch-Michels primality proof, of the Gennaro-Micciancio-Rabin proofs and of the OR-composition are the cited papers' arguments (error probabilities 2^-80 etc.); not mechanised"],
+        "partial": ["'rejects bad moduli whatever responses a prover supplies' is a probabilistic soundness statement of the cited papers; mechanised are the algebraic facts (completeness of every representation / pedersen / range round, determinism of the verifier, binding of modulus and bases through the hash, explicit rejection conditions); cheating provers are explored by the suite"],
+    },
     "C15": {
         "suite": "C15",
         "mismatch_is_violation": True,   # the Coq definition is the property's reference
